@@ -437,6 +437,39 @@ def c09_views(client, d, res, rng, version='1.39'):
             'in_tree=%s lists %r, tree by parent links is %r' % (
                 u, sorted(got or []), sorted(want)),
             {'history': client.history()})
+    # every listing form reports the same parent and root as the table: the
+    # plain list, in_tree alone, and in_tree combined with another filter
+    # that keeps only part of the tree
+    if vnum(version) < 14:
+        return
+    x = rng.choice(sorted(want))
+    for what, path in (
+            ('plain', '/resource_providers'),
+            ('in_tree', '/resource_providers?in_tree=%s' % u),
+            ('in_tree+uuid', '/resource_providers?in_tree=%s&uuid=%s' % (
+                u, x)),
+            ('in_tree+name', '/resource_providers?in_tree=%s&name=%s' % (
+                d.top_of(u), d.providers[x]['name'])),
+            ('uuid', '/resource_providers?uuid=%s' % x)):
+        r = client.send(Req('GET', path, version))
+        res.count('views_checked')
+        if r.status != 200 or not isinstance(r.json, dict):
+            continue
+        for e in r.json.get('resource_providers', []):
+            p = d.providers.get(e['uuid'])
+            if p is None:
+                continue
+            if e.get('parent_provider_uuid') != p['parent'] or \
+                    e.get('root_provider_uuid') != d.top_of(e['uuid']):
+                res.violation(
+                    'C09|reported-parent-or-root-differs|GET rps|%s' % what,
+                    '%s reports parent=%r root=%r for %s, table has '
+                    'parent=%r top=%r' % (
+                        path, e.get('parent_provider_uuid'),
+                        e.get('root_provider_uuid'), e['uuid'], p['parent'],
+                        d.top_of(e['uuid'])),
+                    {'history': client.history()})
+                break
 
 
 # ---------------------------------------------------------------------------
